@@ -144,9 +144,17 @@ where
         let mut serializer = serializer.serialize_map(None)?;
 
         let ext = self.0.extensions();
-        let data = ext
-            .get::<FormattedFields<N>>()
-            .expect("Unable to find FormattedFields in extensions; this is a bug");
+        // A span that was created before this subscriber saw it (for
+        // example, the subscriber was swapped in by a `reload` while the span
+        // was open) has no formatted fields stored: like the other
+        // formatters, write the span without fields rather than panicking.
+        let data = match ext.get::<FormattedFields<N>>() {
+            Some(data) => data,
+            None => {
+                serializer.serialize_entry("name", self.0.metadata().name())?;
+                return serializer.end();
+            }
+        };
 
         // TODO: let's _not_ do this, but this resolves
         // https://github.com/tokio-rs/tracing/issues/391.
